@@ -11,10 +11,10 @@ open Gen
 namespace World
 
 def finish (w : World) (line : String) : World :=
-  { (w.emit s!"{line} @{w.now}") with fut := none }
+  { (w.emit s!"{line} @{w.now}") with fut := none, lastRes := some (.ok ()) }
 
 def finishErr (w : World) (op : String) (e : Err) : World :=
-  w.finish s!"ret {op} err {errName e}"
+  { (w.finish s!"ret {op} err {errName e}") with lastRes := some (.error e) }
 
 def suspend (w : World) (pc : Pc) : World := { w with fut := some pc }
 
